@@ -1,6 +1,6 @@
 (* C15 - a failing writer always surfaces as an error and output stops there.
    Only statements here; proofs live in Proofs/WriterProofs.v. *)
-From Tab Require Import Model.Writer Model.Csv Proofs.WriterProofs.
+From Tab Require Import Model.Writer Model.Csv Proofs.WriterProofs Proofs.WriterMore.
 From Tab Require Model.Markdown Model.Json Model.Text Model.Decoration.
 
 (* For EVERY write list whose calls are all checked and EVERY scripted writer
@@ -70,6 +70,23 @@ Print Assumptions c15_text.
 Theorem c15_prefixb_sound : forall a b, prefixb a b = true <-> prefix a b.
 Proof. exact prefixb_spec. Qed.
 Print Assumptions c15_prefixb_sound.
+
+(* the fault named by the call it happens on: whatever the destination answers
+   on ONE call the renderer makes (nothing accepted, a part accepted, or - the
+   next theorem - the whole payload accepted together with an error; whatever
+   the error VALUE is, the model has no place where it could matter) an error
+   is returned and the accepted bytes are a prefix of the fault-free output *)
+Theorem c15_fault_at_call : forall (sc : script) (ws : list (bytes * bool)) k p c, all_checked ws ->
+  nth_error ws k = Some (p, c) -> faulty (sc k p) = true ->
+  let r := run_writes sc 0 ws [] in fst r = true /\ prefix (snd r) (payloads ws).
+Proof. exact fault_at_call. Qed.
+Print Assumptions c15_fault_at_call.
+
+Theorem c15_full_write_error : forall (sc : script) (ws : list (bytes * bool)) k p c, all_checked ws ->
+  nth_error ws k = Some (p, c) -> sc k p = WPartial (length p) ->
+  let r := run_writes sc 0 ws [] in fst r = true /\ prefix (snd r) (payloads ws).
+Proof. exact full_write_error. Qed.
+Print Assumptions c15_full_write_error.
 
 (* non-vacuity: three writes, a partial write on the second call *)
 Local Open Scope N_scope.
